@@ -33,7 +33,8 @@ type resubSource struct {
 	mu       sync.Mutex
 	outcomes [][]Tok
 	async    bool
-	n        int // subscriptions so far
+	tdslow   bool // the teardown of an attempt takes a moment (closing a resource): logged when it has FINISHED
+	n        int  // subscriptions so far
 	torn     int
 	live     int
 	maxLive  int
@@ -106,6 +107,11 @@ func (s *resubSource) Observable() ro.Observable[int] {
 		return func() {
 			if s.hook != nil {
 				s.hook(k, -1)
+			}
+			if s.tdslow {
+				// an attempt is "over and released" when its teardown has returned: a loop that wakes up on the terminal
+				// callback (or on the done flag) instead of on the end of the teardown subscribes the next attempt now
+				time.Sleep(300 * time.Microsecond)
 			}
 			s.mu.Lock()
 			s.log = append(s.log, "t"+strconv.Itoa(k))
@@ -231,6 +237,7 @@ func runResubCase(c *Case) string {
 	ct, _ := strconv.Atoi(c.get("ct", "0"))
 
 	src := &resubSource{outcomes: outcomes, async: mode == "async", gates: map[int]chan struct{}{}, dones: map[int]chan struct{}{}}
+	src.tdslow = c.get("tdslow", "-") == "1"
 	src.gated = src.async && op == "Catch"
 	src.tdrace = mode == "tdrace"
 	obs := src.Observable()
@@ -566,6 +573,11 @@ func genResub(tier string, seed int64, only string) []*Case {
 		id++
 		cases = append(cases, newCase(id, "kind", "resub", "op", op, "p", p, "var", variant, "cond", cond, "ct", ct,
 			"mode", mode, "cut", cut, "cancel", cancel, "sub", "7", "srcs", shapesString(l)))
+		if mode == "async" && cancel == "-" && cut == "-" && (thorough || id%3 == 0) {
+			id++
+			cases = append(cases, newCase(id, "kind", "resub", "op", op, "p", p, "var", variant, "cond", cond, "ct", ct,
+				"mode", mode, "cut", cut, "cancel", cancel, "sub", "7", "srcs", shapesString(l), "tdslow", "1"))
+		}
 		if op != "Concat" && mode == "sync" && cancel == "-" && (thorough || id%5 == 0) {
 			id++
 			cases = append(cases, newCase(id, "kind", "resub", "op", op, "p", p, "var", variant, "cond", cond, "ct", ct,
